@@ -97,24 +97,39 @@ static unsigned char spec_der_int_vbyte(const unsigned char *b, spec_int I, size
 }
 
 /* ---- ECDSA-Sig-Value: SEQUENCE { r INTEGER, s INTEGER }, DER, exactly len octets ----
- * R, S: the two elements; roff, soff: where they start in b */
+ * spec_sig_framing: identifier 0x30 (8.9.1 constructed, universal tag 16), DER length octets (*L), and the
+ *   contents are exactly the rest of the input (not truncated, nothing after the SEQUENCE).
+ * SPEC_SIG_OK: given the framing and the two INTEGER elements R (read at the start of the contents, limited to
+ *   the contents) and S (read directly after R, limited to the rest of the contents): both well formed and
+ *   nothing after S inside the SEQUENCE.
+ * (Unit C03.der.sig_parse uses these two pieces verbatim, with R and S supplied by the proved contract of the
+ *  integer parser; spec_der_sig below is the same formula with R and S computed by spec_der_int.) */
+static int spec_sig_framing(const unsigned char *b, size_t len, spec_len *L) {
+    L->ok = 0; L->hdr = 0; L->val = 0;
+    if (len < 1 || b[0] != 0x30) return 0;
+    *L = spec_der_len(b + 1, len - 1);
+    if (!L->ok) return 0;
+    return L->val == len - 1 - L->hdr;
+}
+#define SPEC_SIG_ROFF(L) (1 + (L).hdr)                    /* R starts here ... */
+#define SPEC_SIG_RAVAIL(L) ((L).val)                      /* ... and may use this many octets */
+#define SPEC_SIG_SOFF(L, R_) (1 + (L).hdr + (R_).total)   /* S starts directly after R ... */
+#define SPEC_SIG_SAVAIL(L, R_) ((L).val - (R_).total)     /* ... and may use the rest of the contents */
+#define SPEC_SIG_OK(framing, L, R_, S_) ((framing) && (R_).ok && (S_).ok && (R_).total + (S_).total == (L).val)
+/* R, S: the two elements; roff, soff: where they start in b */
 typedef struct { int ok; spec_int R, S; size_t roff, soff; } spec_sig;
 static spec_sig spec_der_sig(const unsigned char *b, size_t len) {
-    spec_sig o; spec_len L;
+    spec_sig o; spec_len L; int framing;
     o.ok = 0; o.roff = 0; o.soff = 0;
     o.R.ok = 0; o.R.total = 0; o.R.inrange = 0; o.R.moff = 0; o.R.ml = 0; o.S = o.R;
-    if (len < 1 || b[0] != 0x30) return o;       /* 8.9.1 constructed, universal tag 16 => identifier octet 0x30 */
-    L = spec_der_len(b + 1, len - 1);
-    if (!L.ok) return o;
-    if (L.val != len - 1 - L.hdr) return o;      /* contents truncated, or octets after the SEQUENCE */
-    o.roff = 1 + L.hdr;
-    o.R = spec_der_int(b + o.roff, L.val);
+    framing = spec_sig_framing(b, len, &L);
+    if (!framing) return o;
+    o.roff = SPEC_SIG_ROFF(L);
+    o.R = spec_der_int(b + o.roff, SPEC_SIG_RAVAIL(L));
     if (!o.R.ok) return o;
-    o.soff = o.roff + o.R.total;
-    o.S = spec_der_int(b + o.soff, L.val - o.R.total);
-    if (!o.S.ok) return o;
-    if (o.R.total + o.S.total != L.val) return o;    /* octets after s inside the SEQUENCE */
-    o.ok = 1;
+    o.soff = SPEC_SIG_SOFF(L, o.R);
+    o.S = spec_der_int(b + o.soff, SPEC_SIG_SAVAIL(L, o.R));
+    o.ok = SPEC_SIG_OK(framing, L, o.R, o.S);
     return o;
 }
 #define spec_der_sig_rbyte(b, S_, i) spec_der_int_vbyte((b) + (S_).roff, (S_).R, i)
